@@ -177,6 +177,7 @@ class World:
         self.jitter = jitter
         self.wire = []          # delivered-to-fabric frames: dicts
         self.tx = []            # frames handed to a node by a stack (emission)
+        self.rx = []            # frames delivered to a node
         self.keep_wire = keep_wire
         self.frame_seen = {}    # identity key prefix -> count
         self.networks = []
@@ -365,14 +366,22 @@ class _NodeMixin:
         if self.muted:
             self.world.probe('muted_rx')
             return
+        w = self.world
+        seq = w.log('rx', self.label, addr_str(pdu.pduSource), bytes(pdu.pduData).hex())
+        if w.keep_wire:
+            w.rx.append({'seq': seq, 't': w.now, 'node': self.label, 'src': addr_str(pdu.pduSource),
+                         'dst': addr_str(pdu.pduDestination), 'octets': bytes(pdu.pduData)})
         try:
             self._real_response(pdu)
         except BudgetExceeded:
             raise
         except Exception as err:
-            self.world.log('node_exc', self.label, type(err).__name__)
+            import traceback
+            tb = traceback.extract_tb(err.__traceback__)
+            where = tb[-1].name if tb else ''
+            self.world.log('node_exc', self.label, type(err).__name__, where)
             self.world.probe('node_exc')
-            env.errlog.records.append(('bacsim.node', type(err).__name__, '', self.label))
+            env.errlog.records.append(('bacsim.node', type(err).__name__, where, str(err)[:40]))
 
     def indication(self, pdu):
         if self.dead or self.lan is None:
